@@ -7,7 +7,12 @@ hash-randomised elements (str, bytes, or objects flagged by `is_seed_sensitive`)
 its elements are produced in an order chosen by ORDER_HOOK - in a symbolic run a
 solver-chosen permutation, i.e. every order some PYTHONHASHSEED could produce
 and more.  Set displays and comprehensions are rewritten to calls so that they
-build NSets too."""
+build NSets too.
+
+EXTRA_SENSITIVE holds additional predicates (module state: every harness sets the
+list it wants before running).  `id_hashed` flags objects with the default identity
+hash: a set of those is ordered by memory addresses, which is not a function of the
+input either (used by C16 seed_haplotag for the sets of Read objects)."""
 import ast
 import builtins
 
